@@ -68,7 +68,7 @@ def structure_with_terms(case, variant, rnd, dup=False):
         return Atoms(**kw)
 
 
-def replacement_with_terms(pairname, coeffs=True, long_text=False, same_labels=False, zero_groups=False):
+def replacement_with_terms(pairname, coeffs=True, long_text=False, same_labels=False, zero_groups=False, no_terms=False):
     from mofun import Atoms
     se, sx, re_, rx = repl.PAIRS[pairname]
     n = len(re_)
@@ -90,6 +90,11 @@ def replacement_with_terms(pairname, coeffs=True, long_text=False, same_labels=F
         kw.update(pair_coeffs=["lj/p %d.5 # P_%s%s" % (i, e, tail) for i, e in enumerate(uniq)],
                   bond_type_coeffs=["harmonic 11.0 1.1 # Pb0" + tail, "harmonic 12.0 1.2 # Pb1" + tail], angle_type_coeffs=["cosine 13.0 # Pa0" + tail],
                   dihedral_type_coeffs=["harmonic 14 1 1 # Pd0" + tail], improper_type_coeffs=["fourier 15 # Pi0" + tail])
+    if no_terms:
+        # a pure re-parameterisation: atoms (with their own labels, masses, pair coefficients, charges, groups) and no bonded term at all
+        bonds, angles, dihedrals, impropers = [], [], [], []
+        for pl_ in ('bonds', 'angles', 'dihedrals', 'impropers'):
+            kw[pl_] = []
     for k, pl in KINDS:
         if not kw[pl]:
             for f in (pl, k + '_types', k + '_type_coeffs'):
@@ -170,7 +175,7 @@ def check(spec):
     case = repl.planted(spec['cell'], spec['pair'], spec['copies'], spec['seed'], decoys=spec.get('decoys', 3))
     S = structure_with_terms(case, spec.get('variant', 0), rnd, dup=spec.get('dup', False)) if not spec.get('cif_like') else case['structure']
     sp, _ = repl.patterns(spec['pair'])
-    rp = replacement_with_terms(spec['pair'], coeffs=spec.get('pattern_coeffs', True), long_text=spec.get('long_text', False), same_labels=spec.get('same_labels', False), zero_groups=spec.get('zero_groups', False))
+    rp = replacement_with_terms(spec['pair'], coeffs=spec.get('pattern_coeffs', True), long_text=spec.get('long_text', False), same_labels=spec.get('same_labels', False), zero_groups=spec.get('zero_groups', False), no_terms=spec.get('no_terms', False))
     cell = case['cell']
     planted, poses = case['planted'], case['poses']
     cur = dict(case, structure=S)
@@ -284,6 +289,13 @@ def run(rec, tier, seed):
             rec.case(repr(sorted(spec.items())), group='single')
             if msg:
                 rec.fail('terms', 'terms', "%s on %r" % (msg, spec), spec, 'C06/replace/terms')
+    # replacement patterns without any bonded term (re-parameterisation of the atoms only)
+    for pi, pair in enumerate(('identical', 'swap-element', 'grow-planar')):
+        spec = dict(cell=['cubic', 'tri+', 'tri-'][pi], pair=pair, copies=2, seed=seed * 100 + 35 + pi, variant=pi % 2, no_terms=True, rng=pi)
+        msg = check(spec)
+        rec.case(repr(sorted(spec.items())), group='pattern-without-terms')
+        if msg:
+            rec.fail('terms', 'terms', "%s on %r" % (msg, spec), spec, 'C06/replace/terms')
     # a share of four occurrences replaced (two or three of them, in the order of the draw), patterns with retained atoms and terms on them
     for pi, pair in enumerate(('swap-element', 'grow-planar', 'shrink-shared', 'grow-interleaved')):
         for rng in (0, 1, 2, 3):
